@@ -398,9 +398,12 @@ impl CanonicalBlock {
         None
     }
     pub fn hop_count_increase(&mut self) -> bool {
-        if let Some((hc_limit, mut hc_count)) = self.hop_count_get() {
-            hc_count += 1;
-            self.set_data(CanonicalData::HopCount(hc_limit, hc_count));
+        if let Some((hc_limit, hc_count)) = self.hop_count_get() {
+            // the counter never wraps: it stays at its maximum
+            self.set_data(CanonicalData::HopCount(
+                hc_limit,
+                hc_count.saturating_add(1),
+            ));
             return true;
         }
         false
@@ -417,7 +420,10 @@ impl CanonicalBlock {
     }
     pub fn bundle_age_update(&mut self, age: u128) -> bool {
         if self.bundle_age_get().is_some() {
-            self.set_data(CanonicalData::BundleAge(age.try_into().unwrap()));
+            // ages beyond the representable range are stored as the maximum
+            self.set_data(CanonicalData::BundleAge(
+                age.try_into().unwrap_or(u64::MAX),
+            ));
             return true;
         }
         false
